@@ -19,7 +19,7 @@ from mc.report import add_sample, add_violation, count, new_part
 from props.c04 import to_real
 
 LEVEL = "model_checking"
-RULE = ("per scenario (nine hand-written and seven emitted by the real SDK: recv_keep, create_keep+recv_keep, two sockets, "
+RULE = ("per scenario (eleven hand-written and seven emitted by the real SDK: recv_keep, create_keep+recv_keep, two sockets, "
         "recv/create_measure, sequential keep with post routine, NV recv_keep; 1..3 outstanding requests of 1..3 pairs, same/different sockets and remote nodes, create and receive "
         "roles mixed, keep and measure types, a target virtual qubit still allocated when its response arrives): BFS over all "
         "interleavings of {step one instruction, deliver next response of stream s, retry deferred responses}; state = (pc, "
@@ -145,6 +145,15 @@ def scenarios() -> Dict[str, Tuple[List, List[Req], int]]:
     p = (arr(0, 30) + qids(1, [0, 1, 2]) + create(1, 1, 1, 4, 0, 0, 3) + wait_all(0, 0, 10) + use(0) + wait_all(0, 10, 20) + use(1)
          + wait_all(0, 20, 30) + use(2) + [("ret_arr", [("addr", 0)])])
     S["create-3-wait-per-pair"] = (p, [Req("create", 1, 1, "K", 3, 0, 1, [0, 1, 2])], 3)
+    # S10: two receive requests that name the SAME qubit-id array; the program stores another virtual id in it between the two
+    # (the ids of a request are those in the array when its pair arrives, not those seen by an earlier request)
+    p = (arr(0, 10) + qids(1, [0]) + recv(1, 0, 1, 0) + wait_all(0, 0, 10) + use(0) + store(1, 0, 1) + arr(2, 10) + recv(1, 0, 1, 2)
+         + wait_all(2, 0, 10) + use(1) + [("ret_arr", [("addr", 0)]), ("ret_arr", [("addr", 2)])])
+    S["recv-1+1-qid-array-reused"] = (p, [Req("recv", 1, 0, "K", 1, 0, 1, [0]), Req("recv", 1, 0, "K", 1, 2, 1, [1])], 3)
+    # S11: the same with create: sequential single-pair creates through one reused id array (as a loop over pairs does)
+    p = (arr(0, 10) + qids(1, [0]) + create(1, 0, 1, 4, 0, 0, 1) + wait_all(0, 0, 10) + use(0) + store(1, 0, 2) + arr(2, 10)
+         + create(1, 0, 1, 5, 2, 0, 1) + wait_all(2, 0, 10) + use(2) + [("ret_arr", [("addr", 0)]), ("ret_arr", [("addr", 2)])])
+    S["create-1+1-qid-array-reused"] = (p, [Req("create", 1, 0, "K", 1, 0, 1, [0]), Req("create", 1, 0, "K", 1, 2, 1, [2])], 3)
     return S
 
 
